@@ -252,7 +252,6 @@ func (a *Analyzer) renderSlice(s *Slice) string {
 	return fmt.Sprintf("bytes(%s@%s+%s)", baseName(b), a.renderLin(s.Off), a.renderLin(s.Len))
 }
 
-
 // LoopCarried reports whether t contains a value that was generalised at a loop head
 // (a location or variable whose content differs between iterations), i.e. depends on what
 // an earlier iteration left behind. Returns a description of the first such part.
